@@ -5,6 +5,7 @@ cd /verif
 for d in seeded/*/; do
   id=$(basename $d); p=${id%-*}
   if [ -n "${ONLY:-}" ] && ! echo "$id" | grep -Eq -- "$ONLY"; then continue; fi
+  if grep -q '"superseded"' $d/meta.json; then echo "$id: superseded by a repair of /repo (no longer changes behaviour)"; continue; fi
   patch=$d/patch.diff; [ -f $d/patch.head.diff ] && patch=$d/patch.head.diff
   if ! git -C /repo apply --check /verif/$patch 2>/dev/null; then echo "$id: patch does not apply on HEAD"; continue; fi
   git -C /repo apply /verif/$patch
